@@ -58,6 +58,12 @@ def cases(draw):
     if draw(st.integers(0, 3)) == 0:
         # ids handed out while a sleeping node has a reply waiting for it (that reply is part of what gets saved)
         ops += [{"op": "line", "text": t} for t in ("5;255;0;0;17;2.0", "5;1;0;0;6;t", "5;1;1;0;0;21", "5;255;3;0;22;7", "5;255;3;0;32;500", "5;1;2;0;0;", "5;255;3;0;6;0")]
+        if draw(st.booleans()):
+            # the sleeping node itself asks for an id: the response waits for its wake-up, is delivered there,
+            # and must not come a second time after a restart
+            # only the version's own wake-up announcement (in 2.2 a heartbeat response is an ordinary report)
+            wakes = [{"op": "line", "text": "5;255;3;0;32;500" if version == "2.2" else "5;255;3;0;22;8"}]
+            ops += [{"op": "idreq", "src": 5, "child": 255}, {"op": "tick"}] + wakes + [{"op": "restart"}] + wakes
         ops += [{"op": "idreq", "src": 255, "child": 255}, {"op": draw(st.sampled_from(["tick", "restart"]))}, {"op": "restart"}, {"op": "idreq", "src": 255, "child": 255}]
     return {"version": version, "ext": ext, "ops": ops}
 
@@ -65,6 +71,7 @@ def cases(draw):
 def check_case(case, stats=None):
     version = case["version"]
     handed = []  # (id, lifetime)
+    parked = {}  # id -> requester: responses withheld because the requester is a sleeping node
     lifetime = 0
     requests = 0
     separated = False
@@ -94,6 +101,7 @@ def check_case(case, stats=None):
                 lifetime += 1
                 life = persist.Lifetime(fake, version, path)
                 barrier_since_request = True
+                parked.clear()  # withheld replies are transient: they do not survive a restart
             elif kind == "line":
                 before = set(life.gw.sensors)
                 step = life.driver.line(op["text"])
@@ -107,7 +115,10 @@ def check_case(case, stats=None):
                 for line in step.sent:
                     f = codec.decode(line)
                     if f[2] == 3 and f[4] == 4:
-                        raise Violation("id_response_unrequested", case, f"step {i} {op}: emitted id response {line!r} without an id request")
+                        if f[5].isdigit() and int(f[5]) in parked:
+                            del parked[int(f[5])]  # the withheld response reaches its requester at the wake-up, once
+                            continue
+                        raise Violation("id_response_unrequested", case, f"step {i} {op}: emitted id response {line!r} without an id request (withheld responses still owed: {parked}; handed out earlier: {handed})")
             elif kind == "idreq":
                 known = set(life.gw.sensors)
                 step = life.driver.line(f"{op['src']};{op['child']};3;0;3;")
@@ -120,6 +131,12 @@ def check_case(case, stats=None):
                     f = codec.decode(line)
                     if f[2] == 3 and f[4] == 4:
                         responses.append(f)
+                requester = life.gw.sensors.get(op["src"])
+                grown = sorted(set(life.gw.sensors) - known)
+                if not responses and len(grown) == 1 and requester is not None and requester.is_smart_sleep_node:
+                    # the requester sleeps: the id is allocated now, its response is withheld until the wake-up
+                    responses = [(op["src"], op["child"], 3, 0, 4, str(grown[0]))]
+                    parked[grown[0]] = op["src"]
                 if len(responses) > 1:
                     raise Violation("several_id_responses", case, f"step {i}: one id request got {len(responses)} id responses")
                 if requests and barrier_since_request:
